@@ -683,20 +683,6 @@ x[a:b, c:d:e]
 (a for a in b for c in d if e)
 f'{x}{y!s}{z!a:>10}'
 f'{{}}'
-f"""{'''x'''}"""
-f'{x:a\\nb}'
-f'{x:\\x41{y}\\t}'
-rf'{x:\\n}'
-f'{x:\\{y}}'
-'' f'{x}'
-f'' 'a' f'{y}'
-f'{x}' ''
-'' f''
-f'{x =  }'
-f'{x=	}'
-f'{x=!r}'
-f'{x=:>5}'
-f'{x = !s:>{w}}'
 f'a{{b}}{c}'
 f'{ {1: 2} }'
 f'{a!r}'
@@ -811,6 +797,14 @@ f(*a or b)
 f(**a or b)
 f(k=a or b)
 """.strip("\n").split("\n")
+
+# behaviours of the f-string scanner repaired in /repo (c09f12b, 897a1b6, 40fcb23, dfa74fc, d717a96) and the former
+# dict-`**` finding (fixed by dc8e40d)
+CORPUS += [
+    'f"""{\'\'\'x\'\'\'}"""', "f'{x:a\\nb}'", "f'{x:\\x41{y}\\t}'", "rf'{x:\\n}'", "f'{x:\\{y}}'",
+    "'' f'{x}'", "f'' 'a' f'{y}'", "f'{x}' ''", "'' f''", "f'{x =  }'", "f'{x=\t}'", "f'{x=!r}'", "f'{x=:>5}'",
+    "f'{x = !s:>{w}}'", "{**(a or b), 'k': 1, **(lambda: c)}", "{**a ** b, **(yield)}", "{**(a, b)}",
+]
 
 FINDING_PROBES = {
     "fstring-escape-inside-replacement-field": ["f'''{d['a']}\"'''", "f'''{f\"{f'{x}'}\"}'''",
